@@ -71,6 +71,11 @@ def pick_sector(ctx, gm, min_dim=3):
     return None
 
 
+def set_keys(tm, q):
+    tm.shape_key = env.dhash(trees.tree_shape(tm.tree))
+    tm.model_key = env.dhash({"m": tm.em.gm.describe(), "t": gen.terms_describe(tm.em.terms, 20), "q": np.asarray(q).tolist()})
+
+
 def common_checks(ctx, tm, sc, imag, s_in, handed, out, qntot, scale):
     """Sector conservation and bond bookkeeping of one result."""
     ctx.cls("sector-checked")
@@ -120,7 +125,7 @@ def oracle_A(ctx, tm, sc, s0, psi, qntot, imag, complete, state_cls="full"):
     common_checks(ctx, tm, sc, imag, s0, handed, out, qntot, scale)
     e1 = rel_err(out, tm.order, ref)
     moved = float(np.linalg.norm(ref - psi)) >= 1e-3 * max(float(np.linalg.norm(psi)), 1e-300)
-    key = (sc, mode, tm.shape_key, ctx.descriptor_key, state_cls, round(x, 3))
+    key = (sc, mode, tm.shape_key, tm.model_key, state_cls, round(x, 3))
     ctx.count("oracle")
     if order is None:
         ctx.cls("A:exact")
@@ -218,7 +223,7 @@ def oracle_D(ctx, tm, sc, s0, psi, qntot, imag, complete):
     d = float(np.linalg.norm(te.dense_of(one, tm.order) - te.dense_of(two, tm.order))) / max(float(np.linalg.norm(ref)), 1e-300)
     ctx.check(d <= e1 + bound + 1e-12, f"D|{sc}|{mode}|t-vs-t/2+t/2-differ", distance=d, e_one=e1, e_two=e2, x=x)
     if order is not None and e1 > 1e-9:
-        ctx.nontrivial(("D", sc, mode, tm.shape_key, ctx.descriptor_key, round(x, 3)))
+        ctx.nontrivial(("D", sc, mode, tm.shape_key, tm.model_key, round(x, 3)))
 
 
 def dense_norm_energy(tm, s):
@@ -270,7 +275,7 @@ def oracle_E(ctx, tm, full, qntot):
         ctx.check(abs(np.real(e_lib) - et) <= 1e-9 * max(1.0, nt ** 2), "observable|expectation|differs-from-dense-energy",
                   lib=e_lib, dense=et)
     if truncated:
-        ctx.nontrivial(("E", tm.shape_key, ctx.descriptor_key, m_lim, x))
+        ctx.nontrivial(("E", tm.shape_key, tm.model_key, m_lim, x))
 
 
 def oracle_F(ctx, tm, full, qntot):
@@ -337,6 +342,35 @@ def oracle_product(ctx, tm, qntot):
         return
     for imag in (False, True):
         oracle_A(ctx, tm, "prop_and_compress_tdrk4", s, psi, qntot, imag, False, state_cls="product")
+
+
+def oracle_ps_incomplete(ctx):
+    """The one-site splitting on sector-limited bond bases (no side of some edge complete): a second-order scheme.
+    Such states need quantum numbers and a sector in which different charge blocks saturate on different sides, so
+    they are searched for (up to 12 models)."""
+    rng = ctx.rng
+    for _ in range(12):
+        em = te.hermitian_tree_model(ctx, nsite=(3, 6), qn_mode=str(rng.choice(["one", "two"], p=[0.7, 0.3])))
+        kind = trees.ALL_KINDS[int(rng.integers(0, len(trees.ALL_KINDS)))]
+        tree, desc, kind = te.build_tree(ctx, em, kind)
+        tm = te.place(ctx, em, tree, desc, kind)
+        q = pick_sector(ctx, em.gm, min_dim=4)
+        if q is None:
+            continue
+        full = te.random_full_state(ctx, tm, q)
+        if full is None:
+            continue
+        psi = te.dense_of(full, tm.order)
+        rep = te.edge_report(tm, psi, q)
+        if all(r["complete"] for r in rep) or [r["rank"] for r in rep] != [int(b) for b in full.bond_dims]:
+            continue
+        set_keys(tm, q)
+        te.classify_tree(ctx, tm)
+        ctx.cls("ps:incomplete-searched")
+        for imag in (False, True):
+            oracle_A(ctx, tm, "tdvp_ps", full, psi, q, imag, False)
+        return
+    ctx.count("ps-incomplete-search-failed")
 
 
 # ----------------------------------------------------------------------------------- linear tree vs chain
@@ -438,6 +472,7 @@ def oracle_aux(ctx):
     s.scale(1.0 / nrm, inplace=True)
     Psi = Psi / nrm
     ttno_aux = ctx.lib(TTNO, atree, list(em.terms), what="TTNO(aux tree)")
+    tm.aux = True
     # edges complete?  ranks of the doubled vector against the sector of the P labels (Q labels are zero)
     atm = te.TreeModel()
     atm.phys, atm.dims = order, [b.nbas for b in order]
@@ -481,9 +516,9 @@ def oracle_aux(ctx):
                 ctx.cls("observed:ps2-refuses-physical-tree-ttno-on-aux-state")
                 ctx.count("aux-ps2-physical-tree-ttno-keyerror")
                 st = te.fresh_copy(s, sc)
-                out = te.guarded_evolve(ctx, None, st, ttno_aux, tau, False, what, sc)
+                out = te.guarded_evolve(ctx, tm, st, ttno_aux, tau, False, what, sc)
         else:
-            out = te.guarded_evolve(ctx, None, st, tm.ttno if on_p_tree else ttno_aux, tau, False, what, sc)
+            out = te.guarded_evolve(ctx, tm, st, tm.ttno if on_p_tree else ttno_aux, tau, False, what, sc)
         got = te.dense_of(out, order)
         e = float(np.linalg.norm(got - ref)) / scale
         bound = (10 * x ** (order_p + 1) + 1e-9) if order_p is not None else EXACT_BOUND[sc]
@@ -509,7 +544,6 @@ def run_case(ctx):
     kind = trees.ALL_KINDS[idx % len(trees.ALL_KINDS)]
     tree, desc, kind = te.build_tree(ctx, em, kind)
     tm = te.place(ctx, em, tree, desc, kind)
-    tm.shape_key = env.dhash(trees.tree_shape(tree))
     te.classify_tree(ctx, tm)
     q = pick_sector(ctx, em.gm)
     if q is None:
@@ -528,7 +562,7 @@ def run_case(ctx):
     rep = te.edge_report(tm, psi, q)
     ranks = [r["rank"] for r in rep]
     complete = all(r["complete"] for r in rep)
-    ctx.descriptor_key = env.dhash({"m": em.gm.describe(), "t": gen.terms_describe(em.terms, 20), "q": np.asarray(q).tolist()})
+    set_keys(tm, q)
     ctx.describe({"model": em.gm.describe(), "terms": gen.terms_describe(em.terms, 8), "sector": np.asarray(q).tolist(),
                   "tree": desc, "bond_dims": list(full.bond_dims), "schmidt_ranks": ranks, "all_edges_complete": complete,
                   "prefactor": coeff})
@@ -555,6 +589,8 @@ def run_case(ctx):
                 break
         if ctx.violations:
             break
+    if "tdvp_ps" in chosen and complete and not ctx.violations:
+        oracle_ps_incomplete(ctx)
     # default (normalised) call of one scheme
     oracle_normalised(ctx, tm, chosen[int(rng.integers(0, len(chosen)))] if chosen[0] != "tdvp_vmf" else chosen[-1], full, psi, q,
                       bool(rng.random() < 0.5), complete)
